@@ -115,3 +115,19 @@ pub fn read_uleb(data: &[u8], pos: usize) -> Option<(u64, usize)> {
 pub fn tier_is_thorough(tier: &str) -> bool {
     tier == "thorough"
 }
+
+thread_local! {
+    static REPLAYING: RefCell<bool> = const { RefCell::new(false) };
+}
+
+/// true while a path is being re-executed: oracles must not skip work they have "already done"
+pub fn replaying() -> bool {
+    REPLAYING.with(|r| *r.borrow())
+}
+
+pub fn with_replaying<T>(f: impl FnOnce() -> T) -> T {
+    let was = REPLAYING.with(|r| r.replace(true));
+    let out = f();
+    REPLAYING.with(|r| *r.borrow_mut() = was);
+    out
+}
